@@ -47,13 +47,17 @@ FAMILY = [
     T(LONGP + ["i32"], "u8", note="long, differs in the return type"),
     T(LONGP + ["&mut i32"], "bool", note="long, last parameter &mut"),
     T(LONGP + ["&i32"], "bool", note="long, last parameter &"),
+    # a long type name made of two-byte characters (an identifier in another script), by value and behind a pointer: wherever a
+    # message about it is cut or measured in bytes, one of the two has a character straddling the place
+    T(["Wide2"], "bool", note="long non-ASCII type name, by value"),
+    T(["*const Wide2"], "bool", note="long non-ASCII type name, *const"),
     T(["&'static str"], "bool", judged=False, note="lifetime spelling 'static"),
     T(["&str"], "bool", judged=False, note="lifetime spelling elided"),
 ]
 
 DEFAULTS = {"ns1::Tok": "ns1::Tok(0)", "ns2::Tok": "ns2::Tok(0)", "bool": "false", "u8": "0", "()": "()", "i32": "0", "Option<bool>": "None"}
 FAKE_RET = {"ns1::Tok": "ns1::Tok(1)", "ns2::Tok": "ns2::Tok(1)", "bool": "true", "u8": "1", "()": "()", "i32": "1", "Option<bool>": "Some(true)"}
-ARGS = {HM: "&hm", "ns1::Tok": "ns1::Tok(5)", "ns2::Tok": "ns2::Tok(5)", "&std::io::Error": "&std::io::Error::from_raw_os_error(1)",
+ARGS = {HM: "&hm", "Wide2": "mk_wide()", "*const Wide2": "&mk_wide() as *const Wide2", "ns1::Tok": "ns1::Tok(5)", "ns2::Tok": "ns2::Tok(5)", "&std::io::Error": "&std::io::Error::from_raw_os_error(1)",
         "&std::fmt::Error": "&std::fmt::Error", "i32": "1", "&mut i32": "&mut m", "u8": "2", "i64": "3", "&i32": "&r", "*mut i32": "&mut m as *mut i32", "u32": "4",
         "&mut i64": "&mut m64", "*const i32": "&r as *const i32", "&'static str": "\"s\"", "&str": "\"s\""}
 
@@ -95,9 +99,11 @@ BOOL_DEFAULT = {"bool": "false", "MyBool": "false", "fn() -> bool": "bg_helper",
 def rust():
     o = []
     o.append("// GENERATED by tools/sigfam.py -- do not edit.  One target and one fake per member of the\n// signature family (C09) and one target per return type of the boolean-gate family (C10).")
-    o.append("#![allow(unused_variables, unused_mut, dead_code, clippy::all, improper_ctypes_definitions)]")
+    o.append("#![allow(unused_variables, unused_mut, dead_code, clippy::all, improper_ctypes_definitions, uncommon_codepoints, mixed_script_confusables, non_camel_case_types)]")
     o.append("use injectorpp::interface::injector::*;\nuse std::sync::atomic::{AtomicU32, Ordering::SeqCst};\npub static MARK: AtomicU32 = AtomicU32::new(0);")
     o.append("pub mod ns1 { #[derive(Clone, Copy)] pub struct Tok(pub u8); }\npub mod ns2 { #[derive(Clone, Copy)] pub struct Tok(pub u8); }")
+    wide = "\u0416" * 70
+    o.append("#[derive(Clone, Copy)] pub struct %s(pub u8);\npub type Wide2 = %s;\npub fn mk_wide() -> Wide2 { %s(3) }" % (wide, wide, wide))
     o.append("pub const NFAM: usize = %d;" % len(FAMILY))
     for k, t in enumerate(FAMILY):
         q = ("unsafe " if t["unsafe"] else "") + ("extern \"%s\" " % t["abi"] if t["abi"] != "Rust" else "")
